@@ -44,6 +44,8 @@ type NodeOpts struct {
 	DABlockTime   time.Duration
 	LazyInterval  time.Duration
 	MaxPending    uint64
+	// ViaDAClient: the node talks to the DA layer through its real DA client (see ViaClient).
+	ViaDAClient bool
 	RootDir       string
 	DAStartHeight uint64
 	MempoolTTL    uint64
@@ -145,6 +147,9 @@ func NewNode(ctx context.Context, o NodeOpts, raw ds.Batching, sgn signer.Signer
 	n.DB = &Bcast[*types.Data]{}
 	n.HStore = NewP2PStore[*types.SignedHeader]()
 	n.DStore = NewP2PStore[*types.Data]()
+	if o.ViaDAClient {
+		da = ViaClient(da, 0)
+	}
 	m, err := block.NewManager(ctx, sgn, n.Cfg, n.Genesis, n.Store, exec, seq, da, Logger(),
 		n.HStore, n.DStore, n.HB, n.DB, block.NopMetrics(), 1.0, 1.5, o.ManagerOptions())
 	if err != nil {
@@ -161,6 +166,9 @@ func (n *Node) Restart(ctx context.Context, raw ds.Batching, sgn signer.Signer,
 	nn := &Node{Raw: raw, KV: MainKV(raw), PubKey: n.PubKey, Genesis: n.Genesis, Cfg: n.Cfg,
 		HB: n.HB, DB: n.DB, HStore: n.HStore, DStore: n.DStore, Opts: n.Opts}
 	nn.Store = storepkg.New(nn.KV)
+	if n.Opts.ViaDAClient {
+		da = ViaClient(da, 0)
+	}
 	m, err := block.NewManager(ctx, sgn, nn.Cfg, nn.Genesis, nn.Store, exec, seq, da, Logger(),
 		nn.HStore, nn.DStore, nn.HB, nn.DB, block.NopMetrics(), 1.0, 1.5, n.Opts.ManagerOptions())
 	if err != nil {
